@@ -7,7 +7,9 @@ from .index import u
 
 BINOPS = {ast.Add: "add", ast.Sub: "sub", ast.Mult: "mul", ast.Div: "div", ast.Pow: "pow"}
 NP_BIN = {"add": "add", "subtract": "sub", "multiply": "mul", "divide": "div", "true_divide": "div", "power": "pow", "float_power": "fpow"}
-NP_UN = {"negative": "neg", "reciprocal": "recip", "positive": "pos"}
+# np.negative is NOT the unary minus of the language: for a Python int it goes through a fixed-width integer (2**63 wraps), so it stays a
+# library call in the terms and mismatches `neg`
+NP_UN = {"reciprocal": "recip", "positive": "pos"}
 
 
 def is_np(e, name):
